@@ -1,4 +1,5 @@
 #!/bin/bash
+. "$(cd "$(dirname "$0")" && pwd)/env.sh"
 # Builds the AddressSanitizer flavour of the C31 monitor (nightly toolchain, offline).
 # Idempotent: a no-op when the binary is fresh; rebuilds c2pa / c2pa-c-ffi when /repo changed
 # (path dependencies).  Output: $VERIF_ROOT/.build/asan/x86_64-unknown-linux-gnu/release/c31
